@@ -1187,7 +1187,7 @@ class OperatorSum(Operator):
         else:
             return OperatorSum(self.left.derivative(x),
                                self.right.derivative(x),
-                               self.__tmp_dom, self.__tmp_ran)
+                               tmp_ran=self.__tmp_ran, tmp_dom=self.__tmp_dom)
 
     @property
     def adjoint(self):
